@@ -67,3 +67,12 @@ Proof. exact bv_get_bits_unchecked_correct. Qed.
 Print Assumptions C10_bitvector_get_bits.
 (* RSNarrow / RSWide / DArray unchecked variants are part of C06_rsnarrow, C06_rswide (rank1/rank0/
    select1/select0 _unchecked) and of C07 (select*_unchecked = unwrap of the checked select). *)
+
+(* the Huffman-shaped binary tree (Proofs/GapsP.v) *)
+From QwtModel Require GapsP.
+Theorem C10_hwt : forall w t seq, hwt_spec w t seq ->
+  (forall i x, nthN seq i = Some x -> wt_get_unchecked w true t i = Val x /\ wt_get w true t i = Val (Some x)) /\
+  (forall c i, 0 < countN c seq -> i <= len seq -> wt_rank_unchecked w true t c i = Val (rank_spec seq c i)) /\
+  (forall c k p, c < 2 ^ w -> select_spec seq c k = Some p -> wt_select_unchecked w true t c k = Val p).
+Proof. exact GapsP.hwt_unchecked. Qed.
+Print Assumptions C10_hwt.
